@@ -362,6 +362,54 @@ def parser_grid_search(log):
     return {'witness': None, 'grid_points': len(cases)}
 
 
+def range_grid_search(log):
+    """range(a, b, s): len, first/last element, indexing at the ends, membership, equality, slicing, iteration vs Python."""
+    M = 2**31
+    ends = [-M, -M + 1, -7, -1, 0, 1, 2, 7, M - 2, M - 1]
+    steps = [1, 2, 3, 7, M - 1, -1, -2, -3, -7, -M]
+    exprs, wants = [], []
+
+    def add(e, w):
+        exprs.append(e)
+        wants.append(w)
+    for a in ends:
+        for b in ends:
+            for s in steps:
+                r = range(a, b, s)
+                src = 'range(%d, %d, %d)' % (a, b, s)
+                n = len(r)
+                add('len(%s)' % src, ('OK %d' % n) if n < M else 'ERR')
+                if n >= M:
+                    continue
+                add('bool(%s)' % src, 'OK %s' % (n > 0))
+                for i in (0, 1, -1, -2, n - 1, n, -n, -n - 1, n // 2):
+                    if -M <= i < M:
+                        try:
+                            add('%s[%d]' % (src, i), 'OK %d' % r[i])
+                        except IndexError:
+                            add('%s[%d]' % (src, i), 'ERR')
+                for x in (a, b, a + s, b - s, a + 2 * s, a + 1, b - 1, 0):
+                    if -M <= x < M:
+                        add('%d in %s' % (x, src), 'OK %s' % (x in r))
+                if n <= 6:
+                    add('list(%s)' % src, 'OK %r' % list(r))
+                    for sl in ((None, None, -1), (1, None, None), (None, -1, 2), (-2, None, None), (None, None, 2)):
+                        f = lambda v: '' if v is None else str(v)
+                        r2 = r[slice(*sl)]
+                        if all(-M <= q < M for q in (r2.start, r2.stop, r2.step)):
+                            # (a sliced range whose own start/stop leave i32 cannot be represented: a clean error is accepted there)
+                            add('list(%s[%s:%s:%s])' % (src, f(sl[0]), f(sl[1]), f(sl[2])), 'OK %r' % list(r2))
+                for (a2, b2, s2) in ((a, b, s), (a, b + s, s), (a, b, 2 * s if -M <= 2 * s < M else s), (a + 1, b, s)):
+                    if -M <= a2 < M and -M <= b2 < M and len(range(a2, b2, s2)) < M:
+                        add('%s == range(%d, %d, %d)' % (src, a2, b2, s2), 'OK %s' % (r == range(a2, b2, s2)))
+    outs = eval_many(exprs, log)
+    for e, o, w in zip(exprs, outs, wants):
+        good = o.startswith('ERR') if w == 'ERR' else o == w
+        if not good:
+            return {'witness': {'expression': e, 'real_library': o, 'oracle_python': w}, 'grid_points': len(exprs)}
+    return {'witness': None, 'grid_points': len(exprs)}
+
+
 def find_witness(prop, v, repo, log):
     if v.get('backend') == 'kani/cbmc':
         return kani_replay(v, log)
@@ -402,6 +450,10 @@ def find_witness(prop, v, repo, log):
             r = grid_search_int(op, log)
             r['search'] = 'boundary grid for `%s` on the real library vs Python integers' % op
             return r
+    if '.range.' in oid or 'Range' in fn or fn.endswith('::range'):
+        r = range_grid_search(log)
+        r['search'] = 'range(a, b, s) for a, b in 10 boundary values x 10 steps: len, bool, r[i] at the ends, membership, equality, small slices and list() on the real library vs Python range'
+        return r
     if prop == 'C01':
         r = slice_grid_search(log)
         r['search'] = 'all len<=6 x start/stop in [-8,8]+extremes x step on the real library vs Python slicing'
